@@ -197,9 +197,11 @@ CLAIMED = {
             "called as the notebook template calls it - is run for 21 exercise types on random references (DFAs over "
             "letters and over {0,1}, NFAs, non-degenerate simple grammars incl. a declared epsilon symbol, regexps) and "
             "on every shipped example; TLC consumes one event per run and flags every verdict other than OK.  "
-            "The oracle is the verdict itself; this is conformance of a composition, not a model.",
+            "Inside the specification the same statement is an invariant of the algorithm models: the result of "
+            "Subset / Hopcroft / Quotient / GnfaRip / Cyk satisfies the criterion of the corresponding checker "
+            "(OwnAnswerPasses...Checker), for all small inputs and all schedules.",
             "trusted: TLC (trivial clause), the harness's reproduction of the template's checker call",
-            "recorded end-to-end runs judged by the TLA+ trace specification"),
+            "TLA+ model invariants (own result satisfies the checker criterion) + recorded end-to-end runs judged by TLC"),
     "C19": ("5/C19, Appendix D",
             "TLC checks the action property OperandsUnchanged of Session.tla (heap cells shared vs copied, hidden "
             "generators) over all histories of <= 3 (4) constructions; the pinned variant of the model violates it.  "
